@@ -26,20 +26,24 @@ RootEnumNeedsInnerName(t) ==
        \/ Len(t.vkinds) = 1 /\ t.tagging \in {"internal", "adjacent"}
 (* (an untagged enum { Unit, Struct{..} }, emitted by schemars as anyOf[null, object], used to render
    its name twice as a named definition: repaired by baac2f0, no longer excused) *)
+(* untagged enums with two variants that admit a common JSON value: schemars emits an anyOf whose
+   branches overlap, typify (rightly) cannot prove them exclusive and falls back to the struct of
+   flattened optional members, which reads no scalar, null or array.  The overlapping pairs of the
+   RustUniverse: String / Option<String> (any string), Vec<i64> / (i64,) ([n]), unit / Option<String>
+   (null; with two variants only this is the Option shortcut and works). *)
+VTys == { cur.vtys[i] : i \in DOMAIN cur.vtys }
+UntaggedRejected(d) == d = "C04/SerializationOfOriginValueRejected" /\ cur.kind = "enum" /\ cur.tagging = "untagged"
 Known(e, d) == { k \in {"C04-root-enum-without-name-for-inline-type", "C04-untagged-overlapping-string-variants",
-                          "C04-untagged-overlapping-array-variants"} :
+                          "C04-untagged-overlapping-array-variants", "C04-untagged-overlapping-null-variants"} :
                    CASE k = "C04-root-enum-without-name-for-inline-type" ->
                           d = "C04/NotGenerated" /\ e.route = "root" /\ RootEnumNeedsInnerName(e)
                      [] k = "C04-untagged-overlapping-string-variants" ->
                           (* reported at the exchange events of such a type: cur is the type event *)
-                          d = "C04/SerializationOfOriginValueRejected" /\ cur.kind = "enum" /\ cur.tagging = "untagged"
-                          /\ { cur.vtys[i] : i \in DOMAIN cur.vtys } = {"Option<String>", "String"}
+                          UntaggedRejected(d) /\ {"Option<String>", "String"} \subseteq VTys
                      [] k = "C04-untagged-overlapping-array-variants" ->
-                          (* Vec<i64> next to the one-tuple (i64,): both admit [n]; schemars emits an anyOf that the
-                             exclusivity analysis cannot (and must not) prove exclusive, and the struct of flattened
-                             optional members typify falls back to cannot read a JSON array *)
-                          d = "C04/SerializationOfOriginValueRejected" /\ cur.kind = "enum" /\ cur.tagging = "untagged"
-                          /\ { cur.vtys[i] : i \in DOMAIN cur.vtys } = {"Vec<i64>", "(i64,)"} }
+                          UntaggedRejected(d) /\ {"Vec<i64>", "(i64,)"} \subseteq VTys
+                     [] k = "C04-untagged-overlapping-null-variants" ->
+                          UntaggedRejected(d) /\ {"Option<String>", ""} \subseteq VTys /\ Len(cur.vtys) >= 3 }
 Bad(e, d) == PrintT(<<"BAD", ToJson([l |-> l, case |-> e.case, prop |-> "C04", diag |-> d, route |-> e.route,
                                      known |-> Known(e, d), ev |-> e])>>)
 
